@@ -528,6 +528,20 @@ func runC12(r *Report) {
 			}
 		}
 		if K < 0 {
+			// a refill guard whose threshold is not a constant cannot be compared with the largest record
+			nonConst := false
+			for _, ft := range Facts(rd.Block()) {
+				if bo, ok := ft.Cond.(*ssa.BinOp); ok && ((bo.Op == token.LSS && ft.Pol) || (bo.Op == token.GEQ && !ft.Pol)) {
+					if _, isPhi := stripValue(bo.X).(*ssa.Phi); isPhi {
+						if _, isC := ConstInt(bo.Y); !isC {
+							nonConst = true
+						}
+					}
+				}
+			}
+			if nonConst {
+				r.Fail("R-C12-2", CallPos(rd), "the batching reader refills below a threshold that is not a constant: it cannot be shown to cover the largest record (an incomplete record larger than the threshold is never completed and the loop spins)", r.P.FuncName(g), "refill-covers-largest-record")
+			}
 			continue // unconditional read: always progresses
 		}
 		var maxRec int64 = -1
